@@ -1401,6 +1401,18 @@ def c15_positional_constructor(res, rng):
             r_call = [[(p.mu, p.sigma) for p in tm] for tm in m_call.rate([[m_call.rating(mu=m, sigma=s_) for (m, s_) in tm] for tm in g["teams"]], tau=t, limit_sigma=b, **kw)]
         except Exception as e:  # noqa: BLE001
             res.fail("property", "C15: %s: a positionally constructed model raised %s" % (kind, type(e).__name__), dict(type="game", game=g)); continue
+        # copies of the configured model are configured alike: copy.copy, copy.deepcopy, a pickle round trip
+        import copy as _copy, pickle as _pickle
+        for how, mk in (("copy.copy", _copy.copy), ("copy.deepcopy", _copy.deepcopy), ("pickle", lambda m_: _pickle.loads(_pickle.dumps(m_)))):
+            try:
+                m_c = mk(m_kw)
+                r_c = [[(p.mu, p.sigma) for p in tm] for tm in m_c.rate([[m_c.rating(mu=m, sigma=s_) for (m, s_) in tm] for tm in g["teams"]], **kw)]
+            except Exception as e:  # noqa: BLE001
+                res.fail("property", "C15: %s: a %s of a model constructed with tau=%r, limit_sigma=%r raised %s" % (kind, how, t, b, type(e).__name__), dict(type="game", game=g)); return
+            res.count("copied_models")
+            if r_c != r_kw:
+                res.fail("property", "C15: %s: a %s of a model constructed with tau=%r, limit_sigma=%r rates differently from the model itself: %r" % (
+                    kind, how, t, b, core.first_pair(r_c, r_kw)), dict(type="game", game=g)); return
         if not (r_pos == r_kw == r_call):
             res.fail("property", "C15: %s(mu, sigma, beta, kappa, gamma, tau=%r, limit_sigma=%r) by position, by keyword and rate(..., tau, limit_sigma) disagree: %r / %r / %r" % (
                 kind, t, b, core.first_pair(r_pos, r_kw), core.first_pair(r_kw, r_call), None), dict(type="game", game=g))
